@@ -11,7 +11,7 @@ import typing as t
 import yaml
 
 from .. import env, genval, gentypes, drive, deepeq
-from ..common import observe
+from ..common import observe, plain_data
 from ..ctx import short
 from ..deepeq import deep_typed_eq
 from ..tyast import Ty, describe, skeleton
@@ -182,7 +182,10 @@ def run(ctx):
                 opts = json_opts(rng) if fmt == 'json' else yaml_opts(rng)
                 if ordered:
                     opts.pop('sort_keys', None)     # sorting keys legitimately reorders an OrderedDict
-                if not (jsonable(d) if fmt == 'json' else yamlable(d)) or not lib_roundtrips(fmt, d, opts):
+                # representable or not is asked of the data's plain image (a `class MyStr(str)` left in it is still the string the
+                # document will hold): if pane itself leaves something the dumper refuses, that is a failed write, not an excuse
+                dp = plain_data(d)
+                if not (jsonable(dp) if fmt == 'json' else yamlable(dp)) or not lib_roundtrips(fmt, dp, opts):
                     ctx.count(f"not_{fmt}_representable")
                     continue
                 if has_non_ascii(d):
@@ -342,7 +345,7 @@ def run(ctx):
             if o.kind != 'value' or c05.roundtrip(T, o.val, ty) is not None:
                 continue
             d = env.into_data(o.val, T)
-            if not yamlable(d) or not lib_roundtrips('yaml', d, {}):
+            if not yamlable(plain_data(d)) or not lib_roundtrips('yaml', plain_data(d), {}):
                 continue
             docs.append(d)
             typed.append(o.val)
